@@ -42,6 +42,7 @@ ASSUMPTIONS = ["frames are identified by xyz[i,0,0]; files have T<100 frames: wi
 SPEC = 6
 # format -> (acceptable model variants: repaired first, then as-found), has_len, seekable
 FORMATS = {
+    "dcd4.dcd": ([1], True, True),     # CHARMM DCD with a 4th-dimension record in every frame (hand-made; mdtraj cannot write one)
     "dcd0.dcd": ([1], True, True),
     "xyznonl.xyz": ([1], True, True),   # .xyz whose last line has no final newline
     "dcdfix.dcd": ([1], True, True),    # CHARMM DCD with fixed atoms (hand-written; mdtraj cannot write one)   # DCD with NSET = 0 in its header (length from the file size)
@@ -212,8 +213,14 @@ def build_cases(ctx):
                 ai = None
                 if i % 4 == 3:
                     ai = sorted(rng.sample(range(4), rng.randint(1, 3)))
-                if ai is not None and fmt == "dcdfix.dcd" and 0 not in ai:
-                    ai = [0] + ai   # frames are identified through a free atom (atom 0); atoms 2, 3 are fixed
+                if ai is not None and i % 8 == 7:
+                    # non-ascending selections, incl. permutations of a contiguous range ([0, 2, 1, 3], [2, 1], [3, 1, 2]):
+                    # the atoms must come back in the order asked for
+                    ai = rng.sample(range(4), rng.randint(2, 4))
+                    if ai == sorted(ai):
+                        ai = ai[::-1]
+                if ai is not None and fmt == "dcdfix.dcd":
+                    ai = [0] + [a for a in ai if a != 0]   # frames are identified through a free atom (atom 0), which must come first; atoms 2, 3 are fixed
                 ops = gen_history(rng, T, L, fmt, over)
                 if ops:
                     cases.append({"fmt": fmt, "T": T, "ops": ops, "handles": 2, "atom_indices": ai,
@@ -271,6 +278,12 @@ def build_cases(ctx):
             if ops:
                 cases.append({"fmt": fmt, "T": T, "ops": ops, "handles": 2, "atom_indices": None if i % 2 == 0 else [0, 2, 2999],
                               "stream": "bigfile", "big": 3000, "cell": True})
+    # atom_indices permutations: unsorted selections spanning a contiguous range, every format
+    for fmt in FORMATS:
+        for ai in ([0, 2, 1, 3], [0, 3, 2, 1], [0, 2, 1]):
+            T = 5
+            ops = [[0, "read", 2], [1, "readall", None], [0, "read", 1]] + ([[0, "tell", None], [0, "seek", 1], [0, "read", 3]] if FORMATS[fmt][2] else [])
+            cases.append({"fmt": fmt, "T": T, "ops": ops, "handles": 2, "atom_indices": ai, "stream": "inrange", "cell": True})
     # fixed probes: the historical witnesses always run first
     for fmt in FORMATS:
         if FORMATS[fmt][2]:
